@@ -132,6 +132,101 @@ static uint64_t run_twin(const TinyLP& t, const ConfigSpace::Cfg& cfg, bool exac
    return fnv_str(d1);
 }
 
+// ---- (a2) medium-size generated LPs: state that a solve leaves behind in a re-used object -----------------------------
+// Covering LPs  min c x, A x >= 1, 0 <= x <= u  with pseudo-random three-digit coefficients from a fixed integer LCG (no library RNG): real-valued data, so the
+// optimum is unique and non-degenerate and a solve takes 10-60 iterations - long enough for counters and histories inside pricers / ratio testers to matter.
+struct MediumLP { int m, n; bool boxed; std::vector<double> c; std::vector<std::vector<double>> A; };
+static MediumLP medium_lp(int shape, int seed)
+{
+   MediumLP L;
+   L.boxed = (shape == 0);
+   L.m = L.boxed ? 15 : 20;
+   L.n = L.boxed ? 40 : 30;
+   uint64_t x = 88172645463325252ull + 7919ull * (uint64_t)seed + 104729ull * (uint64_t)shape;
+   auto next = [&]() { x ^= x << 13; x ^= x >> 7; x ^= x << 17; return x; };
+   L.c.resize(L.n);
+   L.A.assign(L.m, std::vector<double>(L.n, 0.0));
+   for(int j = 0; j < L.n; ++j) L.c[j] = 1.0 + double(next() % 4000) / 1000.0;
+   for(int i = 0; i < L.m; ++i)
+   {
+      int nz = 0;
+      for(int j = 0; j < L.n; ++j) if(next() % 4 == 0) { L.A[i][j] = 0.5 + double(next() % 3000) / 1000.0; ++nz; }
+      if(nz < 3) for(int k = 0; k < 3; ++k) L.A[i][(i * 7 + k * 11) % L.n] = 1.0 + double(next() % 2000) / 1000.0;
+   }
+   return L;
+}
+static void load_medium(SoPlex& spx, const MediumLP& L)
+{
+   spx.setIntParam(SoPlex::OBJSENSE, SoPlex::OBJSENSE_MINIMIZE);
+   DSVector e(0);
+   for(int j = 0; j < L.n; ++j) spx.addColReal(LPCol(L.c[j], e, L.boxed ? 1.0 : (double)infinity, 0.0));
+   for(int i = 0; i < L.m; ++i)
+   {
+      DSVector r(L.n);
+      for(int j = 0; j < L.n; ++j) if(L.A[i][j] != 0) r.add(j, L.A[i][j]);
+      spx.addRowReal(LPRow(1.0, r, (double)infinity));
+   }
+}
+static std::string medium_digest(SoPlex& spx)
+{
+   spx.optimize();
+   std::string d = full_digest(spx);
+   return d.substr(d.find("|B")) + "|it" + std::to_string(spx.numIterations());
+}
+static uint64_t run_medium(int shape, int seed, const ConfigSpace::Cfg& cfg, Ctx& c)
+{
+   std::string cs = "medium:" + std::to_string(shape) + ":" + std::to_string(seed) + "#" + g_cs.str(cfg);
+   std::string at = std::string(shape ? "unboxed-20x30" : "boxed-15x40") + "|" + g_cs.str(cfg);
+   MediumLP L = medium_lp(shape, seed), other = medium_lp(1 - shape, seed + 100);
+   auto fresh = [&](const MediumLP & lp) { SoPlex s; quiet(s); g_cs.apply(s, cfg); load_medium(s, lp); return medium_digest(s); };
+   std::string ref = fresh(L);
+   c.count("medium_reference_solves");
+   {
+      // the family is only useful if the reference solve is a real simplex run ending OPTIMAL: counted, and part of the evidence sample
+      SoPlex s; quiet(s); g_cs.apply(s, cfg); load_medium(s, L);
+      int st = (int)s.optimize();
+      c.count(st == 1 ? "medium_reference_optimal" : "medium_reference_not_optimal");
+      c.count("medium_reference_iterations", s.numIterations());
+      if(s.numIterations() >= 11) c.count("medium_reference_with_11_or_more_iterations");
+      if(c.wantSample()) c.sample("{\"medium_lp\":" + jstr(at) + ",\"seed\":" + std::to_string(seed) + ",\"status\":" + std::to_string(st) + ",\"iterations\":" + std::to_string(s.numIterations()) + ",\"objective\":" + jstr(hexd(s.objValueReal())) + "}");
+   }
+   // (A) a second fresh object
+   churn_heap(5);
+   if(fresh(L) != ref) { c.violation("twin-objects-differ:medium@" + at, cs, "two fresh objects solve the same LP differently"); return 1; }
+   // (B) the same object: solve, clearBasis, solve again (twice)
+   {
+      SoPlex s; quiet(s); g_cs.apply(s, cfg); load_medium(s, L);
+      std::string d1 = medium_digest(s);
+      for(int rep = 0; rep < 2; ++rep)
+      {
+         s.clearBasis();
+         std::string d2 = medium_digest(s);
+         c.count("medium_resolves");
+         if(d2 != d1) { c.violation("resolve-after-clearBasis-differs:medium-nondegenerate@" + at, cs, "solve " + std::to_string(rep + 2) + " on the same object after clearBasis(): " + d2.substr(d2.size() > 60 ? d2.size() - 60 : 0) + " vs first solve " + d1.substr(d1.size() > 60 ? d1.size() - 60 : 0)); return 2; }
+      }
+   }
+   // (C) an object that solved ANOTHER LP before, then clearLPReal() + load: must behave like a fresh object
+   {
+      SoPlex s; quiet(s); g_cs.apply(s, cfg); load_medium(s, other);
+      s.optimize();
+      s.clearLPReal();
+      load_medium(s, L);
+      std::string d = medium_digest(s);
+      c.count("medium_reused_objects");
+      if(d != ref) { c.violation("reused-object-differs-from-fresh:after-clearLPReal@" + at, cs, "after solving another LP, clearLPReal() and loading this LP: " + d.substr(d.size() > 60 ? d.size() - 60 : 0) + " vs fresh object " + ref.substr(ref.size() > 60 ? ref.size() - 60 : 0)); return 3; }
+   }
+   // (D) two live objects used alternately
+   {
+      SoPlex a, b; quiet(a); quiet(b); g_cs.apply(a, cfg); g_cs.apply(b, cfg);
+      load_medium(a, other); load_medium(b, L);
+      a.optimize();
+      std::string db = medium_digest(b);
+      c.count("medium_alternating_objects");
+      if(db != ref) { c.violation("second-live-object-differs-from-fresh:medium@" + at, cs, "object b solved after object a solved another LP differs from a fresh object"); return 4; }
+   }
+   return fnv_str(ref);
+}
+
 // ---- (b) copies --------------------------------------------------------------------------------------
 static const char* BASE = "n=2;m=2;max=1;off=3;c=1,2;lo=0,0;up=4,inf;lhs=-inf,-1;rhs=4,2;A=8,1|0.5,-2";
 static const char* INITN[] = {"empty", "loaded", "solved", "solved-no-presolve", "basis-set", "rational-lp-present", "rational-solved", "persistent-scaled",
@@ -346,6 +441,14 @@ int main(int argc, char** argv)
          if(!ops.empty()) for(auto& o : split(ops, '/')) h.ops.push_back(Op::parse(o));
          return replay_case([&](Ctx & c) { run_copy(h, c); });
       }
+      if(cs.compare(0, 7, "medium:") == 0)
+      {
+         int shape = 0, seed = 0;
+         sscanf(cs.c_str(), "medium:%d:%d", &shape, &seed);
+         size_t hh = cs.find('#');
+         ConfigSpace::Cfg cfgm = g_cs.parse(hh == std::string::npos ? "default" : cs.substr(hh + 1));
+         return replay_case([&](Ctx & c) { run_medium(shape, seed, cfgm, c); });
+      }
       auto parts = split(cs, '#');
       TinyLP t = TinyLP::parse(parts[0]);
       ConfigSpace::Cfg cfg = g_cs.parse(parts.size() > 1 ? parts[1] : "default");
@@ -356,6 +459,8 @@ int main(int argc, char** argv)
    Report rep(args, "model_checking", thorough ? 3000 : 400);
    RunOpts o = rep.opts();
    o.perturb = thorough ? std::vector<int> {85, 165} : std::vector<int> {85};
+   RunOpts o2a = rep.opts();
+   o2a.perturb = {85};
    // (a)
    FamilySet fs;
    fs.add(famQ());
@@ -402,6 +507,17 @@ int main(int argc, char** argv)
          }
       }
    }
+   {
+      // (a2) medium LPs x {default, primal, row representation, Devex, textbook ratio test, no simplifier} x seeds
+      std::vector<ConfigSpace::Cfg> mc;
+      for(const char* t : {"default", "algorithm=0", "representation=2", "pricer=3", "ratiotester=0", "simplifier=0", "ratiotester=3,simplifier=0"}) mc.push_back(g_cs.parse(t));
+      int seeds = thorough ? 24 : 6;
+      rep.phase("medium generated LPs: re-used objects vs fresh objects", (uint64_t)2 * seeds * mc.size(), [&, seeds](uint64_t idx, int, Ctx & c) -> uint64_t
+      {
+         int shape = int(idx % 2), seed = int((idx / 2) % seeds) + 1;
+         return run_medium(shape, seed, mc[idx / 2 / seeds], c);
+      }, [&, seeds](uint64_t idx, uint64_t) { return "medium:" + std::to_string(idx % 2) + ":" + std::to_string((idx / 2) % seeds + 1) + "#" + g_cs.str(mc[idx / 2 / seeds]); }, o2a);
+   }
    RunOpts o2 = rep.opts();
    o2.perturb = {85};
    rep.phase("copies at every prefix point of histories", hs.size(), [&](uint64_t idx, int, Ctx & c) -> uint64_t
@@ -415,9 +531,10 @@ int main(int argc, char** argv)
       return std::string("@copy-phase:") + (sub >= 1000 ? "assign" : "copy-construct") + ":" + ((sub / 100) % 10 ? "op-on-source" : "op-on-copy") + ":" + (p < NPROBE ? PROBES[p].name : "destroy") + "|" + INITN[hs[idx].init];
    });
    auto& C = rep.all.counters;
-   rep.evaluations = C["twin_real"] + C["twin_exact"] + C["independence_probes"] + C["copy_constructions"] + C["assignments"];
+   rep.evaluations = C["twin_real"] + C["twin_exact"] + C["independence_probes"] + C["copy_constructions"] + C["assignments"] + C["medium_reference_solves"] + C["medium_resolves"] + C["medium_reused_objects"] + C["medium_alternating_objects"];
    rep.rule = "(a) every stride-th canonical LP of Q x every configuration with <=1 deviation (floating point) and a subset exact: two fresh objects with different heap history and a "
-              "re-solve after clearBasis, compared through a bit-exact text digest; (b) every prefix point of the histories (8 initial states x reduced alphabet, depth 1; thorough: selected depth 2): "
+              "re-solve after clearBasis, compared through a bit-exact text digest; (a2) generated non-degenerate covering LPs (15x40 boxed, 20x30 unboxed, fixed integer LCG, 6 / 24 seeds) x 7 configurations: second fresh object, "
+              "solve / clearBasis / solve on one object, an object re-used after clearLPReal() and a second live object, each compared with a fresh object (digest incl. iteration count); (b) every prefix point of the histories (8 initial states x reduced alphabet, depth 1; thorough: selected depth 2): "
               "copy construction and assignment into a used object, digest equality, then 20 probe operations + destruction in both directions. states = prefix points, transitions = probes";
    rep.assumptions = {"the digest covers every accessor of the real LP, all parameters, the tolerance object, basis, status, solution vectors and the rational LP"};
    rep.finish(C["prefix_points"] + C["twin_real"], C["prefix_points"], C["independence_probes"], rep.evaluations);
